@@ -20,14 +20,21 @@ import (
 )
 
 // one complete use of the library on its own objects; the result is a digest string
-func c19work(text string, key signKey, penv map[string]string) string {
+func c19work(text string, key signKey, penv map[string]string, nilEnv bool) string {
 	p, err := pipeline.Parse(strings.NewReader(text))
 	if err != nil && !warning.Is(err) {
 		return "parse-error"
 	}
-	env := &hEnv{m: map[string]string{"FOO": "vfoo", "BAR": "b"}}
-	if err := p.Interpolate(env, false); err != nil {
-		return "interpolate-error: " + err.Error()
+	if nilEnv {
+		// no caller environment: the library supplies its own, which must be private to this call
+		if err := p.Interpolate(nil, false); err != nil {
+			return "interpolate-error: " + err.Error()
+		}
+	} else {
+		env := &hEnv{m: map[string]string{"FOO": "vfoo", "BAR": "b"}}
+		if err := p.Interpolate(env, false); err != nil {
+			return "interpolate-error: " + err.Error()
+		}
 	}
 	jb, err := json.Marshal(p)
 	if err != nil {
@@ -77,7 +84,11 @@ func init() {
 			penvs := make([]map[string]string, G)
 			for i := range texts {
 				g := newDocgen(rng, false)
-				doc := dMap(dkv{"steps", g.signableSteps(2, 4, i%4 == 0)}, dkv{"env", dMap(dkv{"A", dStr("$FOO")}, dkv{"B", dStr("x")})})
+				// each pipeline defines one LEAK variable in its env block and reads a different one, which nothing
+				// in ITS OWN input defines: what it reads must not depend on which other pipelines ran before
+				steps := g.signableSteps(2, 4, i%4 == 0)
+				steps.l = append(steps.l, dMap(dkv{"command", dStr(fmt.Sprintf("echo [${LEAK%d}]", (i+1)%3))}))
+				doc := dMap(dkv{"steps", steps}, dkv{"env", dMap(dkv{"A", dStr("$FOO")}, dkv{"B", dStr("x")}, dkv{fmt.Sprintf("LEAK%d", i%3), dStr(fmt.Sprintf("val%d", i))})})
 				var b bytes.Buffer
 				doc.jsonText(&b)
 				texts[i] = b.String()
@@ -85,7 +96,13 @@ func init() {
 			}
 			seq := make([]string, G)
 			for i := range texts {
-				seq[i] = c19work(texts[i], keys[i%len(keys)], penvs[i])
+				seq[i] = c19work(texts[i], keys[i%len(keys)], penvs[i], i%2 == 1)
+			}
+			// no hidden state: the same input gives the same result again, after the others have run
+			for i := range texts {
+				if again := c19work(texts[i], keys[i%len(keys)], penvs[i], i%2 == 1); again != seq[i] {
+					oracleFail("C19", "hidden-state", sx.A(texts[i]), fmt.Sprintf("the same input processed again after other pipelines gives a different result:\nfirst : %q\nsecond: %q", seq[i], again))
+				}
 			}
 			con := make([]string, G)
 			var wg sync.WaitGroup
@@ -98,7 +115,7 @@ func init() {
 							con[i] = fmt.Sprint("panic: ", x)
 						}
 					}()
-					con[i] = c19work(texts[i], keys[i%len(keys)], penvs[i])
+					con[i] = c19work(texts[i], keys[i%len(keys)], penvs[i], i%2 == 1)
 				}(i)
 			}
 			wg.Wait()
